@@ -34,6 +34,8 @@ type callReq struct {
 	kind  string // ltue stop start timerch getnext nextsched markdisp getbyid markdone
 	grant chan callGrant
 	done  chan string // coq term of the cret
+	// the injected fault did not apply (the core refused by itself first): the call is logged as fault-free
+	voidFault bool
 }
 type callGrant struct {
 	fault  int  // 0 none 1 before 2 after
@@ -147,12 +149,14 @@ func (p *sproxy) MarkAsDispatched(ctx context.Context, id string) error {
 	if p.coreFaults && g.fault != 0 && p.faulty != nil {
 		// the failure is the core repository's: the wrapper sees it too (and decides about its hook)
 		p.faulty.markDispFault.Store(int32(g.fault))
+		p.faulty.failNext = g.hfault
 		err := p.inner.MarkAsDispatched(ctx, id)
+		p.faulty.failNext = false
 		p.faulty.markDispFault.Store(0)
-		if err == nil {
-			// the task was not scheduled any more: the core refused before the injected failure applied
-			r.done <- resTerm(err)
-			return err
+		if !errors.Is(err, errInjected) {
+			// the core answered by itself (success is impossible here; a life-cycle refusal is): the injected failure
+			// did not apply, the call is an ordinary one
+			r.voidFault = true
 		}
 		r.done <- resTerm(err)
 		return err
@@ -804,6 +808,12 @@ func (s *sysRun) progress() {
 			}
 		}
 		f := []string{"FNone", "FBefore", "FAfter"}[g.fault]
+		if req.voidFault {
+			f = "FNone"
+		} else if s.proxy.coreFaults && req.kind == "markdisp" && g.fault == 1 {
+			// the core repository failed without effect: the wrapper still ran its timer hook
+			f = "FBeforeHook"
+		}
 		s.log("LCall " + req.term + " " + f + " " + cq.Bool(g.hfault) + " " + ret)
 		if req.kind == "timerch" {
 			s.inSelect = true
